@@ -268,6 +268,12 @@ def rule_val1(A: Analysis, rep):
         n = raises["UnrecognizedTaskParameters"][0]
         loops = [a for a in _anc(n.ast) if isinstance(a, ast.For)]
         ok = len(loops) == 1 and norm(loops[0].iter) == arg and isinstance(n.ast._parent, ast.If) and norm(n.ast._parent.test) == "%s not in schema" % norm(loops[0].target)
+        if not loops:
+            # comprehension forms: `if any(a not in schema for a in arguments): raise` / `if not all(a in schema …): raise`
+            gs = A.path_guards(g, g.entry, n, v)
+            forms = {("t(any((_v0 not in schema for _v0 in %s)))" % arg, True), ("t(all((_v0 in schema for _v0 in %s)))" % arg, False),
+                     ("t(any((not _v0 in schema for _v0 in %s)))" % arg, True)}
+            ok = bool(gs) and all(any(a_ in forms for a_ in c) and not any("isinstance" in a_[0] for a_ in c) for c in gs)
     rep.check(ok, "VAL1", "unknown parameters rejected", v.node, "", "the validator no longer rejects parameters outside the schema")
     lf = A.fn("task_types.raw.RawTaskType.load_from_cond_file")
     g = A.cfg(lf, "plain")
@@ -306,12 +312,24 @@ def rule_val1(A: Analysis, rep):
     for cls, err in (("utils.run_arguments.RunArguments", "RunArgumentsNonPrimitiveValue"), ("utils.run_options.RunOptions", "RunOptionsNonPrimitiveValue")):
         fr = A.fn(cls + ".from_raw")
         rs = [x for x in walk_local(fr.node) if isinstance(x, ast.Raise) and err in norm(x)]
-        ok = len(rs) == 1 and isinstance(rs[0]._parent, ast.If)
+        ok = len(rs) == 1
         if ok:
-            d = A.dnf(rs[0]._parent.test, True, fr)
+            # the condition under which the error is raised for one element, whatever the nesting (`if bad: raise` /
+            # `if good: continue; raise`): its guard from the entry of the enclosing loop body
+            gfr = A.cfg(fr, "plain")
+            loops_ = [a_ for a_ in _anc(rs[0]) if isinstance(a_, ast.For)]
+            start = gfr.entry
+            if loops_:
+                hdr_ = [n_ for n_ in gfr.nodes if n_.kind == "for" and n_.ast is loops_[0]]
+                if hdr_:
+                    start = [m_ for (m_, l_) in hdr_[0].succ if l_ == "T"][0]
+            d = A.path_guards(gfr, start, gfr.node_of(rs[0]), fr)
             kinds = []
             for c in d:
+                neg_vars = {a[len("t(isinstance("):-2].split(", ", 1)[0] for a, p in c if not p and a.startswith("t(isinstance(")}
                 for a, p in c:
+                    if p and a.startswith("t(isinstance(") and a[len("t(isinstance("):-2].split(", ", 1)[0] not in neg_vars:
+                        continue   # an earlier check on another variable (the option's key) that was passed
                     if p or not a.startswith("t(isinstance("):
                         kinds.append("?")
                         continue
